@@ -44,13 +44,6 @@ class IndexedData(BaseCartesianData, HubListener):
             raise ValueError("The 'indices' tuple should have length {0}"
                              .format(original_data.ndim))
 
-        if hasattr(original_data, 'coords'):
-            if original_data.coords is None:
-                self._coords = None
-            else:
-                slices = [slice(None) if idx is None else idx for idx in indices]
-                self._coords = SlicedLowLevelWCS(original_data.coords, slices)
-
         self._original_data = original_data
         self._cid_to_original_cid = {}
         self._original_cid_to_cid = {}
@@ -81,6 +74,15 @@ class IndexedData(BaseCartesianData, HubListener):
             changed = False
 
         self._indices = value
+
+        # The coordinates need to be updated whenever the indices change since
+        # the world coordinates may depend on the dimensions that are dropped.
+        if hasattr(self._original_data, 'coords'):
+            if self._original_data.coords is None:
+                self._coords = None
+            else:
+                slices = [slice(None) if idx is None else idx for idx in self._indices]
+                self._coords = SlicedLowLevelWCS(self._original_data.coords, slices)
 
         # Compute a subset state that represents the indexing - this is used
         # for compute_statistic and compute_histogram
